@@ -32,18 +32,22 @@ func c06cliRun(m *rm.Tree, keep map[string]bool, mode string) (cs c06cliCase, ke
 			dropL = append(dropL, n)
 		}
 	}
-	files := map[string]string{"in.nw": txt + "\n" + txt + "\n"}
+	// the second tree of the file carries one more taxon (x9, attached to the root): options must be evaluated per tree
+	m2 := m.Clone()
+	m2.Root.Children = append(m2.Root.Children, &rm.Node{Name: "x9", HasLen: m2.Root.Children[0].HasLen, Len: 0.5})
+	txt2 := m2.Newick()
+	files := map[string]string{"in.nw": txt + "\n" + txt2 + "\n"}
 	args := []string{"prune", "-i", "@/in.nw"}
 	switch mode {
 	case "args":
-		args = append(args, append(dropL, "notatip")...)
+		args = append(args, append(append([]string{}, dropL...), "notatip", "x9")...)
 	case "args-revert":
 		args = append(append(args, "-r"), append(keepL, "notatip")...)
 	case "tipfile":
-		files["tips.txt"] = strings.Join(append(append([]string{}, dropL...), "notatip"), "\n") + "\n"
+		files["tips.txt"] = strings.Join(append(append([]string{}, dropL...), "notatip", "x9"), "\n") + "\n"
 		args = append(args, "-f", "@/tips.txt")
 	case "tipfile-commas-revert":
-		files["tips.txt"] = strings.Join(keepL, ",") + "\n"
+		files["tips.txt"] = strings.Join(keepL, ",") // no newline at the end of the file
 		args = append(args, "-f", "@/tips.txt", "-r")
 	case "comp":
 		// the compared tree holds the tips to keep plus taxa of its own: tips specific to the input tree are removed
@@ -66,8 +70,16 @@ func c06cliRun(m *rm.Tree, keep map[string]bool, mode string) (cs c06cliCase, ke
 	if len(lines) != 2 {
 		return cs, "C06/cli-" + mode + "/trees-written", fmt.Sprintf("`gotree %s`: 2 trees in, %d lines out: %q", strings.Join(args, " "), len(lines), res.Stdout)
 	}
-	ref := c06expect(m, keep)
-	for _, l := range lines {
+	keep2 := map[string]bool{}
+	for k, v := range keep {
+		keep2[k] = v
+	}
+	if mode == "comp-revert" {
+		keep2["x9"] = true
+	}
+	refs := []*c06ref{c06expect(m, keep), c06expect(m2, keep2)}
+	for li, l := range lines {
+		ref := refs[li]
 		out, err := rm.ParseNewick(l)
 		if err != nil {
 			return cs, "C06/cli-" + mode + "/unreadable-newick", fmt.Sprintf("output line %q: %v", l, err)
